@@ -255,6 +255,11 @@ def run_positive(case, tier):
             outcomes.append((name, text, "refused", P.refusal_key(e)))
             res["refusals"].append(P.refusal_key(e))
             continue
+        av = K.abstraction_values(program, p2, params)
+        if av is None:
+            outcomes.append((name, text, "refused", "abstraction-outside-oracle"))
+            continue
+        values.update(av)
         per_goal = []
         for g, ref in zip(goals, table):
             g2 = g if ren is None else {(ren[1] if v == ren[0] else v): k for v, k in g.items()}
